@@ -15,11 +15,15 @@ import StraxModel.Lemmas.FSStep
   kept as switches of the model and refuted by `decide` on concrete witnesses (`…_old_counterexample`).
 
   PARTIAL.  The forked variant (savers inlined into a ParallelSourcePlugin, chunk + per-chunk metadata written inside
-  `do_compute` in a pool worker) is modelled as the code is: nobody on the saver's side looks at the result of a
-  worker (`cleanup` → `Saver.close(wait_for)` only waits), the caller learns about a failure from the mailbox readers.
-  For it C04 is FALSE in /repo (defect D35): `crash_safe_forked_counterexample`,
-  `failure_unrecorded_forked_counterexample`, `retry_refused_forked_counterexample`.  Hence every theorem below
-  carries `v ≠ .forked` (inside `Reach` and explicitly) and has the suffix `_partial`.
+  `do_compute` in a pool task) is modelled as the code is since the D35 fix: `cleanup` waits for the pool tasks, looks
+  at their results and, if one failed, closes the inlined savers inside that exception's context (`waitAll` before the
+  close; the caller learns about a failure from the mailbox readers as well).  The universally quantified theorems
+  below are still proved for the serial and executor variants only (`v ≠ .forked` inside `Reach` and explicitly, suffix
+  `_partial`): the invariant's bookkeeping for chunk writers that also write the metadata file (first-chunk flush of
+  a forked copy) and per-chunk metadata files was not re-established for the fixed protocol in this round.  For the
+  forked variant there are witnesses by `decide` (`forked_failure_recorded_example`, `retry_heals_forked_example`), the
+  refutation of the unfixed cleanup (`…_forked_old_counterexample`), and the operation-level correspondence of the
+  check on strax's real inlined-saver path.
 -/
 namespace Strax.C04
 open Strax Strax.FS
@@ -30,7 +34,7 @@ open Strax Strax.FS
 ended, no exception" then it lists exactly the chunks `cs` and every chunk file it names is in place with the right
 rows.  (In the machine the final name appears only through `renameDir temp final` after a metadata flush; this is
 what that buys.) -/
-theorem final_dir_consistent {cs : List Chunk} (hcs : cs ≠ []) {fs : FS} (h : Reach cs fs) :
+theorem final_dir_consistent_partial {cs : List Chunk} (hcs : cs ≠ []) {fs : FS} (h : Reach cs fs) :
     ∀ d, fs.final = some d → ∃ m, d.get .md = some (.json m) ∧
       (m.good = true → m.chunks.isEmpty = false ∧ loadChunks d m.chunks = .ok cs) := by
   intro d hd
@@ -40,7 +44,7 @@ theorem final_dir_consistent {cs : List Chunk} (hcs : cs ≠ []) {fs : FS} (h : 
   · rename_i m hm; exact ⟨m, hm, hs⟩
   · exact absurd hs id
 
-/-! ## crash safety (serial and executor variants; forked: counterexample below) -/
+/-! ## crash safety (serial and executor variants; forked: witnesses below) -/
 
 /-- After any fault sequence, at any point of death: what `find` (hence `is_stored`) reports available loads
 completely and equals the correct chunks; everything else is reported unavailable by `DataNotAvailable` — never by
@@ -52,7 +56,7 @@ theorem crash_safe_partial {cs : List Chunk} (hcs : cs ≠ []) {fs : FS} (h : Re
   · exact ⟨fun hv => by simp [visible, hf, Except.toBool] at hv, fun _ => hf⟩
 
 /-- The same for a configuration in the middle of an attempt (the process may die right there). -/
-theorem crash_safe_midway {cs : List Chunk} (hcs : cs ≠ []) {fs : FS} (h : Reach cs fs) (hst : start fs = .save)
+theorem crash_safe_midway_partial {cs : List Chunk} (hcs : cs ≠ []) {fs : FS} (h : Reach cs fs) (hst : start fs = .save)
     (v : Variant) (hs : HandlerSpec) (hv : v ≠ .forked) (hsv : hs.variant ≠ .forked) (acts : List Act) {c : Cfg}
     (hrun : run (initCfg fs v {} cs hs) acts = some c) :
     (visible c.fs = true → loads c.fs = .ok cs) ∧ (visible c.fs = false → find c.fs = .error .dataNotAvailable) :=
@@ -61,14 +65,14 @@ theorem crash_safe_midway {cs : List Chunk} (hcs : cs ≠ []) {fs : FS} (h : Rea
 /-- No reachable state makes a later request fail up front: the state "final directory without metadata"
 (D12) is unreachable, `find` never raises `DataCorrupted`, so an identical request either finds the data or
 recomputes it — no manual cleanup. -/
-theorem retry_never_refused {cs : List Chunk} (hcs : cs ≠ []) {fs : FS} (h : Reach cs fs) :
+theorem retry_never_refused_partial {cs : List Chunk} (hcs : cs ≠ []) {fs : FS} (h : Reach cs fs) :
     D12 fs = false ∧ start fs ≠ .corrupted := by
   refine ⟨?_, ?_⟩
   · unfold D12
     cases hf : fs.final with
     | none => rfl
     | some d =>
-      obtain ⟨m, hm, _⟩ := final_dir_consistent hcs h d hf
+      obtain ⟨m, hm, _⟩ := final_dir_consistent_partial hcs h d hf
       simp [hm]
   · rcases safe_visible (reach_safe hcs h) with ⟨hf, _⟩ | hf <;> simp [start, hf]
 
@@ -79,7 +83,8 @@ or not — the saver's part of the attempt (`save_from` + `close`, `Cfg.out`) ne
 leaves `save_from` / `close`.  (Includes the D3 statement: a failed executor write is never swallowed.)  That the
 processor hands that exception to the caller of `make` is the one boolean `lostClose = false`: both processors look
 at an exception of the final `close` since the D26 fix; tied by the check's oracle, not proved about the processors.
-For inlined (forked) savers nothing of the kind holds, see `failure_unrecorded_forked_counterexample`. -/
+Inlined (forked) savers: witnesses only, see `forked_failure_recorded_example` and
+`failure_unrecorded_forked_old_counterexample` (before the D35 fix). -/
 theorem failure_reported_partial {cs : List Chunk} (hcs : cs ≠ []) {fs : FS} (h : Reach cs fs) (v : Variant)
     (hs : HandlerSpec) (hv : v ≠ .forked) (hsv : hs.variant ≠ .forked)
     (hl : hs.lostClose = false) (acts : List Act) {c : Cfg} (hrun : run (initCfg fs v {} cs hs) acts = some c)
@@ -97,7 +102,7 @@ theorem failure_reported_partial {cs : List Chunk} (hcs : cs ≠ []) {fs : FS} (
 
 /- Full statement: from any state reachable by any fault sequence, a full fault-free run of the protocol (any
    schedule) terminates in "success" with the data stored completely and correctly.
-   Proved: (1) `retry_never_refused` — the retry is never refused and starts (or finds the data already stored and
+   Proved: (1) `retry_never_refused_partial` — the retry is never refused and starts (or finds the data already stored and
    correct, `crash_safe_partial`); (2) `retry_heals_partial` — whenever the retry ends in "success" (any schedule, any
    variant but the forked one) the data is visible, loads completely and equals the correct chunks; (3)
    `failure_reported_partial` — it can
@@ -171,29 +176,40 @@ theorem retry_heals_forked_example :
     let r := twoAttempts .forked {} (specOf .forked) .metaLast [⟨11, .exc⟩] []
     r.2 = .success ∧ visible r.1.fs = true ∧ (loads r.1.fs).toOption = some [c1, c2] := by decide
 
-/-! ## the forked variant as coded violates C04 (D35) -/
+/-! ## the forked variant (inlined savers): fixed behaviour by witnesses, the unfixed cleanup refuted (D35) -/
 
 def c3 : Chunk := { c1 with start := 20, stop := 30, rows := [⟨21, 22, 5⟩] }
 
-/-- D35, last chunk: the rename of the last chunk file fails inside the pool worker.  The caller gets the exception
-(through the mailbox reader), but the saver — closed by `cleanup`, which only waits — records nothing: the data is
-visible as valid with the last chunk silently missing. -/
-theorem crash_safe_forked_counterexample :
-    let r := attempt FS.empty .forked {} [c1, c2, c3] (specOf .forked) .sorted [⟨22, .exc⟩]
+/-- the protocol before the D35 fix: `ParallelSourcePlugin.cleanup` only waited for the pool tasks -/
+def preD35 : Proto := { cleanupChecks := false }
+
+/-- D35, last chunk, BEFORE the fix: the rename of the last chunk file fails inside the pool task.  The caller gets
+the exception (through the mailbox reader), but the saver — closed by a `cleanup` that only waits — records nothing:
+the data is visible as valid with the last chunk silently missing. -/
+theorem crash_safe_forked_old_counterexample :
+    let r := attempt FS.empty .forked preD35 [c1, c2, c3] (specOf .forked) .sorted [⟨22, .exc⟩]
     r.2 = .raised ∧ visible r.1.cfg.fs = true ∧ (loads r.1.cfg.fs).toOption = some [c1, c2] := by decide
 
-/-- D35, any chunk: an operation of the protocol raised and the caller saw it, yet the metadata stored says
-"writing ended, no exception" (here the per-chunk metadata of the middle chunk could not be created: the visible
-data has a hole) -/
-theorem failure_unrecorded_forked_counterexample :
-    let r := (attempt FS.empty .forked {} [c1, c2, c3] (specOf .forked) .sorted [⟨16, .exc⟩]).1
+/-- D35, any chunk, BEFORE the fix: an operation of the protocol raised and the caller saw it, yet the metadata stored
+says "writing ended, no exception" (the per-chunk metadata of the middle chunk could not be created: a hole) -/
+theorem failure_unrecorded_forked_old_counterexample :
+    let r := (attempt FS.empty .forked preD35 [c1, c2, c3] (specOf .forked) .sorted [⟨16, .exc⟩]).1
     r.cfg.failed = true ∧ r.cfg.out = .raised ∧ (getMetadata r.cfg.fs).toOption.map Meta.good = some true ∧
       (loads r.cfg.fs).toOption = some [c1, c3] := by decide
 
-/-- D35: a retry does not heal — the broken data counts as stored, the identical request does nothing -/
-theorem retry_refused_forked_counterexample :
-    let r := twoAttempts .forked {} (specOf .forked) .sorted [⟨9, .exc⟩] []
+/-- D35 BEFORE the fix: a retry does not heal — the broken data counts as stored, the identical request does nothing -/
+theorem retry_refused_forked_old_counterexample :
+    let r := twoAttempts .forked preD35 (specOf .forked) .sorted [⟨9, .exc⟩] []
     r.2 = .stored ∧ (loads r.1.fs).toOption = some [c2] := by decide
+
+/-- the same three faults with the cleanup as it is now (it looks at the results of the pool tasks and closes the
+inlined savers inside the failed task's exception): the failure is recorded, nothing is visible, a retry heals -/
+theorem forked_failure_recorded_example :
+    (∀ k ∈ [22, 16, 9],
+      let r := attempt FS.empty .forked {} [c1, c2, c3] (specOf .forked) .sorted [⟨k, .exc⟩]
+      r.2 = .raised ∧ r.1.cfg.handling = true ∧ visible r.1.cfg.fs = false ∧ findErr r.1.cfg.fs = some .dataNotAvailable) ∧
+    (let r := twoAttempts .forked {} (specOf .forked) .sorted [⟨9, .exc⟩] []
+     r.2 = .success ∧ visible r.1.fs = true ∧ (loads r.1.fs).toOption = some [c1, c2]) := by decide
 
 /-- D12 is gone: death inside the removal of broken data (after its metadata file was unlinked) now leaves a temp
 directory; the data is reported unavailable … -/
